@@ -392,14 +392,15 @@ def replay_file(path):
     if cfg is None:
         print('replay: configuration %s not found' % rec['config'])
         return 2
+    import atexit
     scratch = tempfile.mkdtemp(prefix='artap-verif-replay-')
     os.environ['TMPDIR'] = scratch
     tempfile.tempdir = scratch
-    try:
-        body = getattr(mod, cfg['task'])(cfg.get('args', {}))
-        viol, exc, cc = core.run_concrete(body, rec['assignment'])
-    finally:
-        shutil.rmtree(scratch, ignore_errors=True)
+    atexit.register(shutil.rmtree, scratch, True)   # runs after the Problem objects' own clean-up hooks
+    import logging
+    logging.disable(logging.CRITICAL)
+    body = getattr(mod, cfg['task'])(cfg.get('args', {}))
+    viol, exc, cc = core.run_concrete(body, rec['assignment'])
     print('replay %s config=%s check=%s' % (rec['property'], rec['config'], rec['check']))
     def _f(v):
         if isinstance(v, (list, tuple)):
